@@ -177,6 +177,10 @@ def sink_cases(thorough):
                         if state in ("missing", "empty") and (legacy or extra or ui):
                             continue
                         yield {"ndim": ndim, "state": state, "legacy": legacy, "extra": extra, "units": ui}
+                        if not legacy and state not in ("missing", "empty") and extra == ["lx"]:
+                            # unit-line entries that are general expressions in m, l, t
+                            for exprs in (["m/t", "m**0.5 l**-0.5 t**-1", "(l/t)**2"], ["m*l**2", "l**3/t", "m l**-1 t**-2"], ["1/t", "m l**2.0 t**-1", "m t**-1 l**-2"]):
+                                yield {"ndim": ndim, "state": state, "legacy": legacy, "extra": ["acc", "bnorm", "cs2"], "units": ui, "exprs": exprs}
                         if ndim > 1 and state not in ("missing", "empty"):
                             for order in ("rev", "rot"):
                                 yield {"ndim": ndim, "state": state, "legacy": legacy, "extra": extra, "units": ui, "order": order}
@@ -193,6 +197,33 @@ def sink_unit_factor(expr, legacy, out):
     if expr == "1":
         return 1.0, M2.dims_of()
     base = {"m": eu["mass"], "l": eu["length"], "t": eu["time"]}
+    if any(ch in expr for ch in "/().") or "*" in expr.replace("**", ""):
+        # a general expression in m, l, t (a blank is a product): evaluated with this model's own unit arithmetic
+        class U:
+            def __init__(self, f, d):
+                self.f, self.d = f, tuple(d)
+
+            def __mul__(self, o):
+                o = o if isinstance(o, U) else U(float(o), M2.dims_of())
+                return U(self.f * o.f, [a + b for a, b in zip(self.d, o.d)])
+
+            __rmul__ = __mul__
+
+            def __truediv__(self, o):
+                o = o if isinstance(o, U) else U(float(o), M2.dims_of())
+                return U(self.f / o.f, [a - b for a, b in zip(self.d, o.d)])
+
+            def __rtruediv__(self, o):
+                return U(float(o), M2.dims_of()) / self
+
+            def __pow__(self, k):
+                from fractions import Fraction
+
+                q = Fraction(k).limit_denominator(12)
+                return U(self.f ** float(k), [a * q for a in self.d])
+
+        r = eval(" ".join(expr.split()).replace(" ", "*"), {"__builtins__": {}}, {k: U(*v) for k, v in base.items()})
+        return r.f, r.d
     f, d = 1.0, M2.dims_of()
     for tok in expr.split(" "):
         sym, _, p = tok.partition("**")
@@ -213,7 +244,7 @@ def run_sink(c):
     elif c["state"] == "empty":
         out.sink = "empty"
     else:
-        out.sink = M1.make_sink(ndim, c["state"], legacy=c["legacy"], extra_cols=c["extra"], order=c.get("order", "xyz"))
+        out.sink = M1.make_sink(ndim, c["state"], legacy=c["legacy"], extra_cols=c["extra"], order=c.get("order", "xyz"), extra_units=c.get("exprs"))
     with _load.Scratch() as d:
         out.write(d)
         try:
